@@ -248,6 +248,15 @@ def run(pid, build_replay):
         for what, b in header_mutants(m, arg, value)[:6]:
             cmds.append(f"rd {b.hex()} {defs} {show(e)}")
             meta.append(("hdr", False, what))
+        # the decoder is total on whatever expected type it is given, also with short error messages (the wasm32 default, where
+        # the size of the expected type is estimated before it is printed): a service-constructor type can never be decoded
+        # at, and an empty argument list can never satisfy it -- both must be errors, not panics
+        if len(meta) % 5 == 0 and e[0] == "svc":
+            cls = "c(" + ";".join(show(x) for x in (w[1][0][1][1] if w[0] == "svc" else ())) + ">" + show(e) + ")"
+            cmds.append(f"rds {m.message(arg, value).hex()} {defs} {cls}")
+            meta.append(("tot", False, f"expected type is the service constructor {cls}"))
+            cmds.append(f"rds 4449444c0000 {defs} {cls}")
+            meta.append(("tot", False, f"no value on the wire, expected type is the service constructor {cls}"))
     p = subprocess.run([exe], input="\n".join(cmds) + "\n", capture_output=True, text=True, timeout=1800)
     outs = [l.strip() for l in p.stdout.splitlines()]
     if len(outs) != len(cmds):
@@ -258,6 +267,7 @@ def run(pid, build_replay):
         got_ok = o == "ok"
         if o not in ("ok", "err") or got_ok != want_ok:
             ob = ("reference accepted exactly when its wire type is a subtype of the expected type" if kind == "sub"
+                  else "decoding returns a value or an error for every expected type (no panic)" if kind == "tot"
                   else "ill-formed type table is rejected")
             failures.append({
                 "obligation": "bounded-standin::decode::" + ob, "unit": "bounded-standin", "item": "decoder (header + reference types)",
